@@ -30,11 +30,21 @@
         -> `<zone mask> <U | L i> <direct bits>*n <diffuse bits>*n` | `none`        GainCalc.render, polar point object: lock ->
                                                                                      pan -> zone downmix (Float); the panner is the table
                                                                                      of t captured (position, gains) pairs
+   rple <layout name> <fuel> <n> {x y z az el  nx ny nz prio}*n {groups as in dm} <k> {zones as in ge} px py pz <off|none|bits> gain diffuse
+        -> as rpl                                                                    the same with NO captured panner: `pan` is
+                                                                                     `GainCalc.polarPointPan (T.env fuel) l` =
+                                                                                     PolarExtentHandler.handle(., 0, 0, 0) around the C05
+                                                                                     point-source panner, T / l = the Gen/C01 and Gen/C05
+                                                                                     tables of the named layout (the subject of
+                                                                                     `polar_lock_one_speaker_layouts_extent`)
    fl x  -> bits of  x*0  0*x  0+0  sqrt 0  nan_to_num 0                          the zero laws on doubles
 -/
 import Earverif.Model.Zone
 import Earverif.Model.ChannelLock
 import Earverif.Model.CartLock
+import Earverif.Model.GainCalcConcrete
+import Earverif.Gen.C01_Tables
+import Earverif.Gen.C05_Tables
 import Earverif.Driver.Util
 open Earverif.Zone Earverif.Lock Earverif.CartLock Earverif.Driver
 
@@ -249,6 +259,39 @@ def request : Parser String := do
     -- the panner parameter of the model, closed with the captured values of the real panner
     let pan : P3 Float → Option (List Float) := fun q =>
       (table.find? fun e => e.1.x == q.x && e.1.y == q.y && e.1.z == q.z).map (·.2)
+    match renderPolarLock fuel (rows.map (·.1)) (rows.map (·.2.1)) (rows.map (·.2.2)) gs (zs.map (·.1)) pan
+        ⟨px, py, pz⟩ lock gain diffuse with
+    | none => pure "none"
+    | some (zm, lk, (d, f)) =>
+      let lks := match lk with
+        | .unchanged => "U"
+        | .locked i => s!"L{i}"
+        | .error => "E"
+      pure (String.intercalate " " ([showMask zm, lks] ++ d.map bits ++ f.map bits))
+  | "rple" =>
+    let name ← tok
+    let fuel ← nat
+    let n ← nat
+    let rows ← rep (do
+      let s ← spkP
+      let x ← flt; let y ← flt; let z ← flt; let pr ← nat
+      pure (s.1, (⟨x, y, z⟩ : P3 Float), pr)) n
+    let gs ← groupsP n
+    let k ← nat
+    let zs ← rep zoneP k
+    let px ← flt; let py ← flt; let pz ← flt
+    let l ← tok
+    let gain ← flt
+    let diffuse ← flt
+    done
+    let lock ← (if l == "off" then some none
+                else if l == "none" then some (some none)
+                else (l.toNat?).map fun b => some (some (Float.ofBits (UInt64.ofNat b))) : Option (Option (Option Float)))
+    let T ← (Earverif.Gen.C01.layouts.find? (·.name == name) : Option _)
+    let L ← (Earverif.Gen.C05.layouts.find? (·.name == name) : Option _)
+    let E : Earverif.GainCalc.LayoutEnv Float := T.env fuel
+    -- the panner of the real render: extent_pan(position, 0, 0, 0), nothing captured
+    let pan : P3 Float → Option (List Float) := fun q => Earverif.GainCalc.polarPointPan E L (q.x, q.y, q.z)
     match renderPolarLock fuel (rows.map (·.1)) (rows.map (·.2.1)) (rows.map (·.2.2)) gs (zs.map (·.1)) pan
         ⟨px, py, pz⟩ lock gain diffuse with
     | none => pure "none"
